@@ -381,6 +381,20 @@ fn handle(req: &Value) -> Value {
             let s = |r: &Result<Rcvar, JmespathError>| match r { Ok(v) => format!("{:?}", v), Err(e) => format!("ERR {:?}", e.reason) };
             json!({"kind": "ok", "equal": s(&used) == s(&fresh), "used": s(&used), "fresh": s(&fresh)})
         }
+        "cli_oracle" => {
+            // what jp must report for (expression, JSON text, flags), computed with the library in-process
+            let e = req["expr"].as_str().unwrap();
+            let x = match jmespath::compile(e) { Ok(x) => x, Err(_) => return json!({"kind": "ok", "class": "fail", "stage": "compile"}) };
+            if req["ast"].as_bool() == Some(true) { return json!({"kind": "ok", "class": "ok", "stdout": format!("{:#?}\n", x.as_ast())}); }
+            let v = match Variable::from_json(req["json"].as_str().unwrap()) { Ok(v) => v, Err(_) => return json!({"kind": "ok", "class": "fail", "stage": "json"}) };
+            match x.search(Rcvar::new(v)) {
+                Err(_) => json!({"kind": "ok", "class": "fail", "stage": "search"}),
+                Ok(r) => {
+                    let out = if req["unquoted"].as_bool() == Some(true) && r.is_string() { format!("{}\n", r.as_string().unwrap()) } else { format!("{}\n", serde_json::to_string_pretty(&r).unwrap()) };
+                    json!({"kind": "ok", "class": "ok", "stdout": out})
+                }
+            }
+        }
         "compile_default" => match jmespath::compile(req["expr"].as_str().unwrap()) {
             Ok(x) => json!({"kind": "ok", "ast": format!("{:?}", x.as_ast())}),
             Err(e) => err_json("compile-err", &e),
